@@ -2,8 +2,8 @@ package interp
 
 import (
 	"fmt"
-	"sort"
 	"os"
+	"sort"
 	"strings"
 
 	"golang.org/x/tools/go/packages"
